@@ -210,7 +210,17 @@ def run_ellipse(c, res):
     d = FlowCal.io.FCSData(p)
     cx, cy = c['center']
     single = c.get('single')
-    for cn, data, chans in (('arr', arr, [0, 2]), ('fcs', d, ['CH1', 'CH3']), ('fcs-swap', d, [2, 'CH1'])):
+    conts = [('arr', arr, [0, 2]), ('fcs', d, ['CH1', 'CH3']), ('fcs-swap', d, [2, 'CH1'])]
+    if all(float(x) == int(x) and x >= 0 for v in vals for x in v):
+        # the same events held in integer types (signed array, unsigned loaded sample)
+        iarr = np.array([[int(v[0]), 3, int(v[1])] for v in vals], dtype=np.int64)
+        ilay = dict(datatype='I', bits=[32] * 3, ranges=[2 ** 20] * 3, byteord='1,2,3,4', events=iarr.tolist())
+        ibuf, _ = fcsgen.build(ilay)
+        ip = os.path.join(scratch(), 'c08ei.fcs')
+        with open(ip, 'wb') as f:
+            f.write(ibuf)
+        conts += [('arr-int', iarr, [0, 2]), ('fcs-int', FlowCal.io.FCSData(ip), ['CH1', 'CH3'])]
+    for cn, data, chans in conts:
         for a in AXES:
             for b in AXES:
                 for ti, th in enumerate(ANGLES):
